@@ -191,8 +191,9 @@ Definition attr_get_class (s : schema) (guarded : bool) (cur : nat) (seed : bool
     end
   else Some cur.
 
-(* iterating a many-to-many collection: since fix 50e342a Set.copy calls rentity._load_many_ on the placeholders built from the link table,
-   which loads and thereby refines them *)
+(* iterating a many-to-many collection IN A LIVE SESSION: since fix 50e342a Set.copy calls rentity._load_many_ on the placeholders built
+   from the link table, which loads and thereby refines them; since 233f906 only while the owner's session is alive (a detached object
+   hands out its already loaded collection as it is: C32's territory, outside this definition) *)
 Definition collection_item_class (s : schema) (cur real : nat) : nat := match refine s cur real with Some c => c | None => cur end.
 (* Entity.__setstate__-side: a reference restored from a pickle is an object of the declared class marked as loaded; nothing refines it *)
 Definition unpickled_ref_class (cur real : nat) : nat := cur.
